@@ -442,8 +442,8 @@ func init() {
 					Template: tmplFor(i),
 					Tweak: func(s *pgen.Spec) {
 						if big {
-							s.MaxLen = 11
-							s.MaxChunks = 11
+							s.LenChoices = []int{0, 1, 2, 9, 10, 11}
+							s.ChunkChoices = []int{0, 1, 2, 9, 10, 11}
 						}
 					}})
 			}
